@@ -480,6 +480,18 @@ func genCase(t *rapid.T) (Case, map[string]bool) {
 						ops.OpSetCSel((other+adj)&63))
 					cSel = (other + adj) & 63
 					gs.l("two-paths-in-a-row-from-sibling-gradient-values")
+				case 2:
+					// the register holding the gradient value is an operand of a real blend (weights
+					// 1..254): its four bytes count as they were stored, reserved bits included; with
+					// nearly all weight on opaque black the result is a valid flat colour
+					tw := uint8(rapid.IntRange(1, 12).Draw(t, "mix.t"))
+					bl := ops.ColorV{T: 3, R: tw, G: 0x00, B: 0xc0 | g.Reg}
+					if rapid.Bool().Draw(t, "mix.swap") {
+						bl = ops.ColorV{T: 3, R: 255 - tw, G: 0xc0 | g.Reg, B: 0x00}
+					}
+					c.Ops = append(c.Ops, ops.OpSetCSel((other+adj)&63), ops.OpSetCReg(adj, false, bl))
+					cSel = (other + adj) & 63
+					gs.l("gradient-value-mixed-into-a-flat-colour-by-a-blend")
 				}
 			}
 		}
